@@ -42,5 +42,78 @@ def guarded (env : VEnv) : Bool :=
   (List.range env.st.size).all fun s =>
     !(reachFrom env (env.st.size + 1) [s] []).contains s
 
+/-! ### the rank certificate
+
+`guarded` searches for a cycle; `ranked` checks a *certificate* of acyclicity instead: a function
+`rankOf env : NodeId → Nat` that strictly decreases along every in-place edge.  The function is
+computed (longest-path relaxation), but `ranked env = true` IS the statement that it decreases, so
+nothing has to be proved about the computation.  JSV/Proofs/Defined.lean derives from it that the
+Spec (hence the evaluator) is defined with fuel `(depth of the instance + 1) * (maxRank env + 1)`.
+The certificate is complete: under `closed`, `guarded env = ranked env` (JSV/Proofs/DefinedGuarded.lean,
+`C01.guarded_iff_ranked`). -/
+
+/-- the schemas `validate` may call itself on with a CHILD of the instance (array items, member
+    values, property names): the instance-descending applicators of both drafts -/
+def descEdges (n : Node) : List NodeId :=
+  (n.prefixItems.getD []) ++ n.items.toList ++ (n.itemsArray.getD []) ++ n.additionalItems.toList ++
+    n.contains.toList ++ ((n.properties.getD []).map (·.2)) ++ ((n.patternProperties.getD []).map (·.2)) ++
+    n.additionalProperties.toList ++ n.propertyNames.toList ++ n.unevaluatedItems.toList ++
+    n.unevaluatedProperties.toList
+
+/-- the in-place successors of every schema of the store, computed once -/
+def inPlaceTable (env : VEnv) : List (List NodeId) := (List.range env.st.size).map (inPlaceEdges env)
+
+/-- one round of longest-path relaxation: rank s := max over the edges s → t of (rank t + 1) -/
+def relaxRanks (edges : List (List NodeId)) (r : Array Nat) : Array Nat :=
+  (edges.map fun ts => ts.foldl (fun m t => max m (r.getD t 0 + 1)) 0).toArray
+
+def iterRanks (edges : List (List NodeId)) : Nat → Array Nat → Array Nat
+  | 0, r => r
+  | k + 1, r => iterRanks edges k (relaxRanks edges r)
+
+/-- `env.st.size + 1` rounds from the everywhere-0 table: on an acyclic graph the table is then the length
+    of the longest in-place path from each schema -/
+def rankTable (env : VEnv) : Array Nat := iterRanks (inPlaceTable env) (env.st.size + 1) #[]
+
+def rankOf (env : VEnv) (s : NodeId) : Nat := (rankTable env).getD s 0
+
+/-- the largest rank of the table -/
+def maxRank (env : VEnv) : Nat := (rankTable env).toList.foldl max 0
+
+/-- `r` strictly decreases along every in-place edge -/
+def rankedBy (env : VEnv) (r : Array Nat) : Bool :=
+  (List.range env.st.size).all fun s => (inPlaceEdges env s).all fun t => decide (r.getD t 0 < r.getD s 0)
+
+/-- the rank table is a certificate that in-place recursion is well founded
+    (`∀ s < size, ∀ t ∈ inPlaceEdges env s, rankOf env t < rankOf env s`, see `Refine.ranked_spec`) -/
+def ranked (env : VEnv) : Bool := rankedBy env (rankTable env)
+
+/-- the tables the evaluator dereferences are complete: every `$ref` / `$dynamicRef` has a recorded target, and
+    every schema a keyword applies (in place or to a child of the instance) is a node of the store -/
+def closed (env : VEnv) : Bool :=
+  (List.range env.st.size).all fun s =>
+    match env.st.get? s with
+    | none => true
+    | some n =>
+      (n.ref == "" || ((env.info? s).bind (·.resolvedRef)).isSome) &&
+      (n.dynamicRef == "" || ((env.info? s).bind (·.resolvedDynamicRef)).isSome) &&
+      (inPlaceEdges env s ++ descEdges n).all fun t => decide (t < env.st.size)
+
 end Go
+
+namespace Json
+mutual
+  /-- nesting depth: scalars 0, an array / object one more than its deepest element / member value -/
+  def depth : Json → Nat
+    | .arr xs => 1 + depthList xs
+    | .obj kvs => 1 + depthObj kvs
+    | _ => 0
+  def depthList : List Json → Nat
+    | [] => 0
+    | x :: xs => max (depth x) (depthList xs)
+  def depthObj : List (String × Json) → Nat
+    | [] => 0
+    | (_, v) :: rest => max (depth v) (depthObj rest)
+end
+end Json
 end JSV
